@@ -81,6 +81,8 @@ def run_cli_report(res, devs):
 def run(res):
     vh, exe = P.base(res, PROP)
     devs = gen.read_devices(vh)
+    from . import devspec
+    devspec.check(res, devs, ("flash words", "RAM start", "RAM bytes", "EEPROM bytes"))
     run_cli_report(res, devs)
     default, table = devs[0], devs[1:]
     cases = []   # (text, expect 'OK'/'ERR', device row, kind)
